@@ -187,10 +187,10 @@ class Codec:
         body_len_end = msg.find(self.SOH, len(expected_begin))
         if len(msg) <= len(expected_begin) or body_len_end == -1:
             toks = msg[len(expected_begin) :].split("=", 1)
-            if toks[0] == FTag.BodyLength[: len(toks[0])] and (
-                len(toks) == 1
-                or not toks[1]
-                or (toks[1].isascii() and toks[1].isdigit())
+            if (len(toks) == 1 and toks[0] == FTag.BodyLength[: len(toks[0])]) or (
+                len(toks) == 2
+                and toks[0] == FTag.BodyLength
+                and (not toks[1] or (toks[1].isascii() and toks[1].isdigit()))
             ):
                 # header is not complete yet, wait for more data
                 assert silent, "Minimum message"
